@@ -27,7 +27,14 @@ DELAYS = [0.25, 0.5, 1, 1.5, 2, 3]
 OPS = [">=", "<", "==", "!=", ">", "<="]
 
 
+DEC_DELAYS = [0.1, 0.2, 0.3, 0.7, 0.9, 1.1]
+DEC_DATES = [0.3, 0.9, 1.3, 1.7, 2.9, 0.1]
+
+
 class Gen:
+    delays = DELAYS
+    dates = [0, 0.5, 1, 2, 3, 4]
+
     def __init__(self, rng):
         self.rng = rng
         self.use_res = rng.random() < 0.4
@@ -51,7 +58,7 @@ class Gen:
             return {"k": "done", "task": "d"}
         if r < 0.95:
             op = rng.choice([">=", "<"] if under_not else [">=", ">=", "<", "=="])
-            return {"k": "time", "op": op, "t": rng.choice([0, 0.5, 1, 2, 3, 4])}
+            return {"k": "time", "op": op, "t": rng.choice(self.dates)}
         return {"k": "flag", "n": "f0"}
 
     def expr(self, depth, under_not=False):
@@ -71,7 +78,7 @@ class Gen:
         for _ in range(rng.randint(1, 5)):
             r = rng.random()
             if r < 0.55:
-                ops.append({"op": "sleep", "d": rng.choice(DELAYS)})
+                ops.append({"op": "sleep", "d": rng.choice(self.delays)})
             elif r < 0.7:
                 ops.append({"op": "postpone", "k": rng.randint(1, 2)})
             ops.extend(self.change())
@@ -98,6 +105,12 @@ class Gen:
 
 def generate(rng, tier):
     gen = Gen(rng)
+    decimal = rng.random() < 0.15
+    if decimal:
+        # non-dyadic delays, dates and start time (a detour of a date through a relative delay
+        # is off by an ulp for many of them)
+        gen.delays, gen.dates = DEC_DELAYS, DEC_DATES
+    DELAYS = gen.delays
     resources = {"f%d" % i: {"kind": "flag", "init": rng.random() < 0.2} for i in range(3)}
     resources["x0"] = {"kind": "tracked", "init": rng.randint(0, 3)}
     resources["x1"] = {"kind": "tracked", "init": rng.randint(0, 3)}
@@ -143,7 +156,10 @@ def generate(rng, tier):
     for i in range(rng.randint(1, 3)):
         actors.append(gen.setter(i))
     rng.shuffle(actors)
-    return {"property": ID, "scenario": {"resources": resources, "actors": actors},
+    scenario = {"resources": resources, "actors": actors}
+    if decimal:
+        scenario["start"] = rng.choice([0.2, 0.3, 0.6, 0.7])
+    return {"property": ID, "scenario": scenario,
             "plan": [], "config": {"waitq": rng.choice(["heap", "sd"])}}
 
 
